@@ -65,6 +65,7 @@ type simBlock struct {
 	block  *types.Block
 	parent *simBlock
 	model  []acctModel // indexed by planned account
+	credits []BalEdit  // balance credits applied in this block (blob pool runs)
 }
 
 func (b *simBlock) number() uint64 { return b.block.NumberU64() }
@@ -106,7 +107,7 @@ var delegTarget = common.HexToAddress("0x00000000000000000000000000000000000042a
 var sinkAddr = common.HexToAddress("0x000000000000000000000000000000000000d00d")
 
 // newSimChain builds the genesis block with the planned accounts.
-func newSimChain(accts []*account, init []acctModel, gasLimit, baseFee uint64) *simChain {
+func newSimChain(accts []*account, init []acctModel, gasLimit, baseFee, excessBlobGas uint64) *simChain {
 	c := &simChain{
 		cfg:    chainConfig(),
 		sdb:    state.NewDatabaseForTesting(),
@@ -135,10 +136,11 @@ func newSimChain(accts []*account, init []acctModel, gasLimit, baseFee uint64) *
 		simcore.Harnessf("genesis commit: %v", err)
 	}
 	var zero uint64
+	excess := excessBlobGas
 	h := &types.Header{
 		Number: big.NewInt(0), GasLimit: gasLimit, GasUsed: gasLimit / 2, Time: 0,
 		BaseFee: new(big.Int).SetUint64(baseFee), Difficulty: new(big.Int), Root: root,
-		ExcessBlobGas: &zero, BlobGasUsed: &zero,
+		ExcessBlobGas: &excess, BlobGasUsed: &zero,
 	}
 	g := &simBlock{block: types.NewBlock(h, nil, nil, trie.NewStackTrie(nil)), model: model}
 	c.blocks[g.block.Hash()] = g
@@ -194,6 +196,15 @@ func (c *simChain) applyTx(work []acctModel, tx *types.Transaction, signer types
 // build creates (but does not adopt) a child of parent containing those of the
 // candidate transactions that are valid in order, then the balance edits.
 func (c *simChain) build(parent *simBlock, cands []*types.Transaction, edits []BalEdit, env blockEnv) *simBlock {
+	return c.buildX(parent, cands, edits, false, env)
+}
+
+// buildCredit is build with edits that add to the balance instead of setting it.
+func (c *simChain) buildCredit(parent *simBlock, cands []*types.Transaction, credits []BalEdit, env blockEnv) *simBlock {
+	return c.buildX(parent, cands, credits, true, env)
+}
+
+func (c *simChain) buildX(parent *simBlock, cands []*types.Transaction, edits []BalEdit, credit bool, env blockEnv) *simBlock {
 	c.mu.Lock()
 	defer c.mu.Unlock()
 
@@ -212,7 +223,11 @@ func (c *simChain) build(parent *simBlock, cands []*types.Transaction, edits []B
 	}
 	for _, e := range edits {
 		if e.Acct >= 0 && e.Acct < len(work) {
-			work[e.Acct].Balance = uint256.NewInt(e.Balance)
+			if credit {
+				work[e.Acct].Balance = new(uint256.Int).Add(work[e.Acct].Balance, uint256.NewInt(e.Balance))
+			} else {
+				work[e.Acct].Balance = uint256.NewInt(e.Balance)
+			}
 		}
 	}
 	st, err := state.New(parent.block.Root(), c.sdb)
@@ -256,6 +271,9 @@ func (c *simChain) build(parent *simBlock, cands []*types.Transaction, edits []B
 		Difficulty: new(big.Int), Root: root, Extra: extra[:], ExcessBlobGas: &ebg, BlobGasUsed: &bgu,
 	}
 	b := &simBlock{block: types.NewBlock(h, &types.Body{Transactions: txs}, nil, trie.NewStackTrie(nil)), parent: parent, model: work}
+	if credit {
+		b.credits = append([]BalEdit{}, edits...)
+	}
 	c.blocks[b.block.Hash()] = b
 	return b
 }
